@@ -276,7 +276,8 @@ def replay_cases(input_lines, outfile):
 
 
 def case_weight(c):
-    return max(1, len(c["coq"]) // 400) * (40 if c["coq"].startswith("ValidateCase") else 1)
+    kind = c["coq"].split(" ", 1)[0]
+    return max(1, len(c["coq"]) // 400) * (40 if kind == "ValidateCase" else 30 if kind == "KeyCase" else 1)
 
 
 def run_shard(args):
